@@ -1,5 +1,640 @@
-import VrpModel.C14
+import VrpProofs.C14.Machine
+/-!
+# C14 — property theorems: tours and the vehicle registry stay well-formed under any operation sequence
+
+Code-shaped model (`Tour`, `Registry`, `RegistryCtx`, the handle machine `Obj.step`) versus the reference
+model (`RTour`: the list of job activities; `RReg`: registered actors + the set in use), for operation
+sequences of any length. Helper lemmas live in `VrpProofs/C14/*.lean`.
+-/
+set_option linter.unusedSimpArgs false
+set_option linter.unnecessarySimpa false
+set_option linter.unusedVariables false
+
 namespace C14
-theorem stub_new_total (c : Bool) : (Tour.new c).total = if c then 2 else 1 := by
-  cases c <;> rfl
+
+/-! ## 1. Tours -/
+
+inductive TourOp where
+  | insAt (j s i : Nat)
+  | insLast (j s : Nat)
+  | rem (j : Nat)
+  | remAt (i : Nat)
+
+/-- one call on the code-shaped tour, with what the caller sees (`panic` included) -/
+def Tour.stepOp (t : Tour) : TourOp → Tour × Out
+  | .insAt j s i => ((t.insertAtRaw (Act.job j s) i).1, if (t.insertAtRaw (Act.job j s) i).2 then Out.panic else Out.unit)
+  | .insLast j s => ((t.insertLastRaw (Act.job j s)).1, if (t.insertLastRaw (Act.job j s)).2 then Out.panic else Out.unit)
+  | .rem j => ((t.remove j).1, Out.bool (t.remove j).2)
+  | .remAt i => ((t.removeActivityAt i).1, match (t.removeActivityAt i).2 with | some j => Out.job j | none => Out.panic)
+
+/-- the same call on the reference tour; `none` = outside the contract of `insert_at` -/
+def RTour.stepOp (r : RTour) : TourOp → Option (RTour × Out)
+  | .insAt j s i => (r.insertAt j s i).map (fun r' => (r', Out.unit))
+  | .insLast j s => some (r.insertLast j s, Out.unit)
+  | .rem j => some ((r.remove j).1, Out.bool (r.remove j).2)
+  | .remAt i => some ((r.removeActivityAt i).1, match (r.removeActivityAt i).2 with | some j => Out.job j | none => Out.panic)
+
+def Tour.run (t : Tour) : List TourOp → Tour × List Out
+  | [] => (t, [])
+  | op :: ops => ((Tour.run (t.stepOp op).1 ops).1, (t.stepOp op).2 :: (Tour.run (t.stepOp op).1 ops).2)
+
+def RTour.run (r : RTour) : List TourOp → Option (RTour × List Out)
+  | [] => some (r, [])
+  | op :: ops =>
+    match r.stepOp op with
+    | none => none
+    | some (r1, o) =>
+      match RTour.run r1 ops with
+      | none => none
+      | some (r2, os) => some (r2, o :: os)
+
+/-- the only guard: `insert_at` is called with an index between the depot ends, in terms of the tour's
+    own public counter -/
+def TourOp.ok (t : Tour) : TourOp → Prop
+  | .insAt _ _ i => 1 ≤ i ∧ i ≤ t.jobActivityCount + 1
+  | _ => True
+
+def Guarded (t : Tour) : List TourOp → Prop
+  | [] => True
+  | op :: ops => op.ok t ∧ Guarded (t.stepOp op).1 ops
+
+/-- one guarded call: same result as the reference, and the representation relation is kept -/
+theorem tour_step_refines {t r} (h : Sim t r) (op : TourOp) (hok : op.ok t) :
+    ∃ r', r.stepOp op = some (r', (t.stepOp op).2) ∧ Sim (t.stepOp op).1 r' := by
+  cases op with
+  | insAt j s i =>
+    have hok' : 1 ≤ i ∧ i ≤ r.mid.length + 1 := by
+      have := hok; simp only [TourOp.ok] at this; rw [jac_of_sim h] at this; exact this
+    have hr : r.insertAt j s i = some { r with mid := vecInsert r.mid (i - 1) (j, s) } := by
+      unfold RTour.insertAt; rw [if_pos hok']
+    obtain ⟨h1, h2⟩ := sim_insertAt h hr
+    refine ⟨_, ?_, h2⟩
+    simp only [RTour.stepOp, Tour.stepOp, hr, h1, Option.map_some, Bool.false_eq_true, if_false]
+  | insLast j s =>
+    obtain ⟨h1, h2⟩ := sim_insertLast h j s
+    refine ⟨_, ?_, h2⟩
+    simp only [RTour.stepOp, Tour.stepOp, h1, Bool.false_eq_true, if_false]
+  | rem j =>
+    obtain ⟨h1, h2⟩ := sim_remove h j
+    refine ⟨_, ?_, h2⟩
+    simp only [RTour.stepOp, Tour.stepOp, h1]
+  | remAt i =>
+    obtain ⟨h1, h2⟩ := sim_removeAt h i
+    refine ⟨_, ?_, h2⟩
+    simp only [RTour.stepOp, Tour.stepOp, h1]
+
+/-- the reference accepts an operation exactly when the guard holds -/
+theorem tour_guard_iff_reference {t r} (h : Sim t r) (op : TourOp) : op.ok t ↔ (r.stepOp op).isSome = true := by
+  cases op with
+  | insAt j s i =>
+    simp only [TourOp.ok, RTour.stepOp, RTour.insertAt, jac_of_sim h]
+    by_cases hc : 1 ≤ i ∧ i ≤ r.mid.length + 1
+    · simp [hc]
+    · simp [hc]
+  | insLast j s => simp [TourOp.ok, RTour.stepOp]
+  | rem j => simp [TourOp.ok, RTour.stepOp]
+  | remAt i => simp [TourOp.ok, RTour.stepOp]
+
+/-- **refinement for operation sequences of any length**: every result the caller sees equals the
+    reference's, and the final tour represents the reference's final tour -/
+theorem tour_run_refines {t r} (h : Sim t r) (ops : List TourOp) (hg : Guarded t ops) :
+    ∃ r', r.run ops = some (r', (t.run ops).2) ∧ Sim (t.run ops).1 r' := by
+  induction ops generalizing t r with
+  | nil => exact ⟨r, rfl, h⟩
+  | cons op ops ih =>
+    obtain ⟨r1, hr1, hs1⟩ := tour_step_refines h op hg.1
+    obtain ⟨r2, hr2, hs2⟩ := ih hs1 hg.2
+    refine ⟨r2, ?_, hs2⟩
+    simp only [RTour.run, Tour.run, hr1, hr2]
+
+/-- **`Tour.WF` is preserved by every guarded operation sequence** -/
+theorem tour_ops_preserve_WF {t : Tour} (h : t.WF) (ops : List TourOp) (hg : Guarded t ops) :
+    (t.run ops).1.WF := by
+  obtain ⟨r, hr⟩ := h
+  obtain ⟨r', _, hs⟩ := tour_run_refines hr ops hg
+  exact ⟨r', hs⟩
+
+/-- **after any guarded sequence on a new tour, everything the public API shows is what the reference shows** -/
+theorem tour_observation_after_ops (closed : Bool) (ops : List TourOp) (hg : Guarded (Tour.new closed) ops) (n : Nat) :
+    ∃ r', (RTour.new closed).run ops = some (r', ((Tour.new closed).run ops).2) ∧
+      ((Tour.new closed).run ops).1.observe n = r'.observe n ∧
+      wfObs n closed (((Tour.new closed).run ops).1.observe n) = true := by
+  obtain ⟨r', hr, hs⟩ := tour_run_refines (sim_new closed) ops hg
+  refine ⟨r', hr, observe_of_sim hs n, ?_⟩
+  have hc : ((Tour.new closed).run ops).1.closed = closed := by
+    have : ∀ (t : Tour) (ops : List TourOp), (t.run ops).1.closed = t.closed := by
+      intro t ops
+      induction ops generalizing t with
+      | nil => rfl
+      | cons op ops ih =>
+        simp only [Tour.run]
+        rw [ih]
+        cases op <;> simp only [Tour.stepOp, Tour.insertLastRaw, Tour.insertAtRaw, Tour.remove, Tour.removeActivityAt]
+          <;> (repeat' split) <;> rfl
+    exact this _ _
+  have := wfObs_of_sim hs n
+  rw [hc] at this
+  exact this
+
+/-- what `Tour.WF` means in terms of the code-shaped tour alone: depot ends in place, the job set is the
+    set of jobs of the activities, consistent counters, legs = consecutive pairs + the open-end leg -/
+theorem WF_facts {t : Tour} (h : t.WF) :
+    t.acts.head? = some Act.start ∧
+    (t.acts.getLast? = some Act.finish ↔ t.closed = true) ∧
+    (∀ a ∈ t.acts.tail.dropLast, a ≠ Act.start ∧ a ≠ Act.finish) ∧
+    t.jobs.Nodup ∧ (∀ j, j ∈ t.jobs ↔ ∃ s, Act.job j s ∈ t.acts) ∧
+    t.total = t.jobActivityCount + 1 + (if t.closed then 1 else 0) ∧
+    t.jobCount = (dedup (t.acts.filterMap Act.jobId?)).length ∧
+    t.legs = specLegs t.closed t.acts := by
+  obtain ⟨r, hr⟩ := h
+  refine ⟨head_of_sim hr, ?_, ?_, hr.nodup, ?_, ?_, ?_, ?_⟩
+  · rw [last_of_sim hr, hr.closed]
+    cases hc : r.closed
+    · simp only [Bool.false_eq_true, if_false, iff_false]
+      cases r.mid.getLast? <;> simp
+    · simp
+  · intro a ha
+    rw [hr.acts, render_eq] at ha
+    have hm : a ∈ r.mid.map jobAct := by
+      simp only [List.tail_cons] at ha
+      cases hc : r.closed
+      · rw [hc] at ha
+        simp only [ends, Bool.false_eq_true, if_false, List.append_nil] at ha
+        exact (List.dropLast_sublist _).subset ha
+      · rw [hc] at ha
+        simp only [ends, if_true, List.dropLast_concat] at ha
+        exact ha
+    obtain ⟨p, _, e⟩ := List.mem_map.mp hm
+    subst e
+    exact ⟨by simp [jobAct], by simp [jobAct]⟩
+  · intro j
+    rw [hr.mem j, hr.acts, render_eq]
+    simp only [List.mem_map, List.mem_cons, List.mem_append]
+    constructor
+    · rintro ⟨p, hp, e⟩
+      exact ⟨p.2, Or.inr (Or.inl ⟨p, hp, by subst e; rfl⟩)⟩
+    · rintro ⟨s, hs⟩
+      rcases hs with hs | ⟨p, hp, e⟩ | hs
+      · cases hs
+      · refine ⟨p, hp, ?_⟩
+        simp only [jobAct] at e
+        cases e; rfl
+      · cases hc : r.closed <;> rw [hc] at hs <;> simp [ends] at hs
+  · rw [total_of_sim hr, jac_of_sim hr, hr.closed]
+  · rw [jobCount_of_sim hr, hr.acts, render_eq]
+    unfold RTour.jobSet
+    congr 2
+    have h1 : ∀ l, List.filterMap Act.jobId? (Act.start :: l) = List.filterMap Act.jobId? l := fun l => rfl
+    have h2 : (ends r.closed).filterMap Act.jobId? = [] := by cases r.closed <;> rfl
+    rw [h1, List.filterMap_append, h2, List.append_nil, List.filterMap_map]
+    have : (Act.jobId? ∘ jobAct) = (some ∘ Prod.fst) := by funext p; rfl
+    rw [this, List.filterMap_eq_map]
+  · rw [legs_of_sim hr, hr.acts, hr.closed]
+
+/-! ### the guard of `insert_at` is necessary: what the code does outside it -/
+
+/-- index 0 displaces the start -/
+theorem insertAt_index0_breaks_WF :
+    ((Tour.new true).insertAtRaw (Act.job 0 0) 0).2 = false ∧ ¬ ((Tour.new true).insertAtRaw (Act.job 0 0) 0).1.WF := by
+  refine ⟨rfl, ?_⟩
+  rintro ⟨r, hr⟩
+  have := hr.acts
+  rw [render_eq] at this
+  cases this
+
+/-- an index behind the end of a closed tour displaces the end -/
+theorem insertAt_past_end_breaks_WF :
+    ((Tour.new true).insertAtRaw (Act.job 0 0) 2).2 = false ∧ ¬ ((Tour.new true).insertAtRaw (Act.job 0 0) 2).1.WF := by
+  refine ⟨rfl, ?_⟩
+  rintro ⟨r, hr⟩
+  have h1 := last_of_sim hr
+  have h2 : r.closed = true := hr.closed.symm
+  rw [h2] at h1
+  cases h1
+
+/-- an index beyond the vector panics after the job set was already updated: the job is then "in the tour"
+    without an activity -/
+theorem insertAt_out_of_range_corrupts_jobs :
+    ((Tour.new false).insertAtRaw (Act.job 0 0) 2).2 = true ∧ ¬ ((Tour.new false).insertAtRaw (Act.job 0 0) 2).1.WF := by
+  refine ⟨rfl, ?_⟩
+  rintro ⟨r, hr⟩
+  have hm := (hr.mem 0).mp (by decide)
+  have ha := hr.acts
+  rw [render_eq] at ha
+  have hmid : r.mid = [] := by
+    cases hmid : r.mid with
+    | nil => rfl
+    | cons p l => rw [hmid] at ha; cases ha
+  rw [hmid] at hm
+  simp at hm
+
+/-- non-vacuity: a guarded sequence with a multi job, a duplicate, removals and a documented panic -/
+example : Guarded (Tour.new true)
+    [.insLast 0 0, .insAt 2 0 1, .insAt 2 1 3, .insLast 0 0, .remAt 0, .remAt 2, .rem 2, .rem 5] := by
+  simp only [Guarded, TourOp.ok]
+  decide
+
+example : ((Tour.new true).run [.insLast 0 0, .insAt 2 0 1, .insAt 2 1 3, .insLast 0 0, .remAt 0, .remAt 2]).2
+    = [.unit, .unit, .unit, .unit, .panic, .job 0] := by decide
+
+/-! ## 2. The registry -/
+
+inductive RegOp where
+  | use (a : Nat)
+  | free (a : Nat)
+  | slice (keep : List Nat)
+  | copy
+deriving DecidableEq
+
+def Registry.stepOp (r : Registry) : RegOp → Registry × Out
+  | .use a => ((r.useActor a).1, Out.bool (r.useActor a).2)
+  | .free a => ((r.freeActor a).1, Out.bool (r.freeActor a).2)
+  | .slice keep => (r.deepSlice keep.contains, Out.unit)
+  | .copy => (r, Out.unit)
+
+def RReg.stepOp (r : RReg) : RegOp → RReg × Out
+  | .use a => ((r.use a).1, Out.bool (r.use a).2)
+  | .free a => ((r.free a).1, Out.bool (r.free a).2)
+  | .slice keep => (r.slice keep.contains, Out.unit)
+  | .copy => (r, Out.unit)
+
+def Registry.run (r : Registry) : List RegOp → Registry × List Out
+  | [] => (r, [])
+  | op :: ops => ((Registry.run (r.stepOp op).1 ops).1, (r.stepOp op).2 :: (Registry.run (r.stepOp op).1 ops).2)
+
+def RReg.run (r : RReg) : List RegOp → RReg × List Out
+  | [] => (r, [])
+  | op :: ops => ((RReg.run (r.stepOp op).1 ops).1, (r.stepOp op).2 :: (RReg.run (r.stepOp op).1 ops).2)
+
+theorem reg_step_refines {r rr} (h : RSim r rr) (op : RegOp) :
+    (r.stepOp op).2 = (rr.stepOp op).2 ∧ RSim (r.stepOp op).1 (rr.stepOp op).1 := by
+  cases op with
+  | use a => obtain ⟨h1, h2⟩ := rsim_use h a; exact ⟨by simp only [Registry.stepOp, RReg.stepOp, h1], h2⟩
+  | free a => obtain ⟨h1, h2⟩ := rsim_free h a; exact ⟨by simp only [Registry.stepOp, RReg.stepOp, h1], h2⟩
+  | slice keep => exact ⟨rfl, rsim_slice h _⟩
+  | copy => exact ⟨rfl, h⟩
+
+/-- **refinement for acquire/release/slice/copy sequences of any length** -/
+theorem reg_run_refines {r rr} (h : RSim r rr) (ops : List RegOp) :
+    (r.run ops).2 = (rr.run ops).2 ∧ RSim (r.run ops).1 (rr.run ops).1 := by
+  induction ops generalizing r rr with
+  | nil => exact ⟨rfl, h⟩
+  | cons op ops ih =>
+    obtain ⟨h1, h2⟩ := reg_step_refines h op
+    obtain ⟨h3, h4⟩ := ih h2
+    exact ⟨by simp only [Registry.run, RReg.run, h1, h3], h4⟩
+
+/-- **the container invariant holds in every reachable state** -/
+theorem registry_ops_preserve_inv {r : Registry} (h : RInv r) (ops : List RegOp) : RInv (r.run ops).1 := by
+  induction ops generalizing r with
+  | nil => exact h
+  | cons op ops ih =>
+    apply ih
+    cases op with
+    | use a => exact (use_spec h a).1
+    | free a => exact (free_spec h a).1
+    | slice keep => exact (slice_spec h _).1
+    | copy => exact h
+
+/-- **from `Registry::new`, any sequence: same answers and same observation as the reference** -/
+theorem registry_refines_from_new (f : Fleet) (ops : List RegOp) (n : Nat) :
+    ((Registry.new f).run ops).2 = ((RReg.new f.length).run ops).2 ∧
+    ((Registry.new f).run ops).1.observe false = (RObj.reg false ((RReg.new f.length).run ops).1).observe n := by
+  obtain ⟨h1, h2⟩ := reg_run_refines (rsim_new f) ops
+  exact ⟨h1, observe_of_rsim h2 false n⟩
+
+/-- **a vehicle is offered exactly when it is registered and not in use** (`held` is the reference's
+    bookkeeping: put in by a successful `use`, taken out by `free`) -/
+theorem available_iff_not_in_use {r rr} (h : RSim r rr) (a : Nat) :
+    a ∈ r.availableList ↔ a ∈ rr.actors ∧ a ∉ rr.held := by
+  rw [mem_availableList, h.avail a]
+  simp [RReg.avail]
+
+/-- `use_actor` succeeds exactly for an offered vehicle, and then stops offering it -/
+theorem use_succeeds_iff_available {r : Registry} (h : RInv r) (a : Nat) :
+    ((r.useActor a).2 = true ↔ a ∈ r.availableList) ∧ a ∉ (r.useActor a).1.availableList := by
+  obtain ⟨_, hres, _, hav⟩ := use_spec h a
+  refine ⟨by rw [hres, mem_availableList], ?_⟩
+  rw [mem_availableList, hav a]
+  simp
+
+theorem isAvail_stays_false {r : Registry} (h : RInv r) (a : Nat) (op : RegOp) (hop : op ≠ RegOp.free a)
+    (hv : r.isAvail a = false) : (r.stepOp op).1.isAvail a = false := by
+  cases op with
+  | use b => simp only [Registry.stepOp]; rw [(use_spec h b).2.2.2 a, hv]; rfl
+  | free b =>
+    simp only [Registry.stepOp]
+    rw [(free_spec h b).2.2.2 a, hv]
+    have : a ≠ b := fun e => hop (by rw [e])
+    simp [this]
+  | slice keep => simp only [Registry.stepOp]; rw [(slice_spec h _).2.2 a, hv]; rfl
+  | copy => exact hv
+
+/-- **never handed out twice**: after `use_actor a` (whatever it returned), no sequence of operations
+    without a `free_actor a` makes a further `use_actor a` succeed -/
+theorem never_handed_out_twice {r : Registry} (h : RInv r) (a : Nat) (ops : List RegOp)
+    (hops : ∀ op ∈ ops, op ≠ RegOp.free a) :
+    (((r.useActor a).1.run ops).1.useActor a).2 = false := by
+  have h0 : (r.useActor a).1.isAvail a = false := by rw [(use_spec h a).2.2.2 a]; simp
+  have hi0 : RInv (r.useActor a).1 := (use_spec h a).1
+  have key : ∀ (ops : List RegOp) (r : Registry), RInv r → r.isAvail a = false →
+      (∀ op ∈ ops, op ≠ RegOp.free a) → (r.run ops).1.isAvail a = false ∧ RInv (r.run ops).1 := by
+    intro ops
+    induction ops with
+    | nil => intro r hr hv _; exact ⟨hv, hr⟩
+    | cons op ops ih =>
+      intro r hr hv hops
+      have hstep := isAvail_stays_false hr a op (hops op (by simp)) hv
+      have hinv : RInv (r.stepOp op).1 := registry_ops_preserve_inv hr [op]
+      exact ih _ hinv hstep (fun o ho => hops o (List.mem_cons_of_mem _ ho))
+  obtain ⟨hv, hinv⟩ := key ops _ hi0 h0 hops
+  rw [(use_spec hinv a).2.1, hv]
+
+/-- a registered vehicle can be acquired again right after it was released -/
+theorem free_makes_available {r : Registry} (h : RInv r) (a : Nat) (ha : a ∈ r.all) :
+    ((r.freeActor a).1.useActor a).2 = true := by
+  obtain ⟨hinv, _, _, hav⟩ := free_spec h a
+  rw [(use_spec hinv a).2.1, hav a]
+  simp [ha]
+
+/-- **`deep_slice` keeps exactly the filtered actors**, registered and offered alike; released actors that
+    were filtered out cannot come back -/
+theorem slice_keeps_exactly {r : Registry} (h : RInv r) (keep : Nat → Bool) :
+    (r.deepSlice keep).all = r.all.filter keep ∧
+    (∀ a, a ∈ (r.deepSlice keep).availableList ↔ a ∈ r.availableList ∧ keep a = true) ∧
+    (∀ a, keep a = false → ((r.deepSlice keep).freeActor a).2 = false ∧
+                           a ∉ ((r.deepSlice keep).freeActor a).1.availableList) := by
+  obtain ⟨hinv, hall, hav⟩ := slice_spec h keep
+  refine ⟨hall, ?_, ?_⟩
+  · intro a; rw [mem_availableList, mem_availableList, hav a]; simp
+  · intro a hk
+    obtain ⟨_, hres, _, hav'⟩ := free_spec hinv a
+    have hna : a ∉ (r.deepSlice keep).all := by rw [hall, List.mem_filter]; simp [hk]
+    refine ⟨by rw [hres]; simp [hna], ?_⟩
+    rw [mem_availableList, hav' a, hav a, hk]
+    simp [hna]
+
+/-- non-vacuity: two groups, a vehicle taken twice, a slice, a foreign actor -/
+example : ((Registry.new [1, 1, 4]).run [.use 0, .use 0, .free 0, .use 0, .slice [0, 2], .free 1, .use 7]).2
+    = [.bool true, .bool false, .bool true, .bool true, .unit, .bool false, .bool false] := by decide
+
+/-! ## 3. The registry context -/
+
+inductive CtxOp where
+  | get (a : Nat)
+  | useRoute (c : RouteCtx)
+  | freeRoute (c : RouteCtx)
+  | slice (keep : List Nat)
+  | copy
+
+def RegistryCtx.stepOp (x : RegistryCtx) : CtxOp → RegistryCtx
+  | .get a => (x.getRoute a).1
+  | .useRoute c => (x.useRoute c).1
+  | .freeRoute c => (x.freeRoute c).1
+  | .slice keep => x.deepSlice keep.contains
+  | .copy => x
+
+def CtxOp.toRegOp : CtxOp → RegOp
+  | .get a => .use a
+  | .useRoute c => .use c.actor
+  | .freeRoute c => .free c.actor
+  | .slice keep => .slice keep
+  | .copy => .copy
+
+def RegistryCtx.run (x : RegistryCtx) : List CtxOp → RegistryCtx
+  | [] => x
+  | op :: ops => RegistryCtx.run (x.stepOp op) ops
+
+theorem ctx_step {closedOf : Nat → Bool} {x : RegistryCtx} (h : CInv closedOf x) (op : CtxOp) :
+    CInv closedOf (x.stepOp op) ∧ (x.stepOp op).registry = (x.registry.stepOp op.toRegOp).1 := by
+  cases op with
+  | get a => exact ⟨(getRoute_spec h a).1, rfl⟩
+  | useRoute c => exact ⟨useRoute_spec h c, rfl⟩
+  | freeRoute c => exact ⟨freeRoute_spec h c, rfl⟩
+  | slice keep => exact ⟨ctxSlice_spec h _, rfl⟩
+  | copy => exact ⟨h, rfl⟩
+
+/-- the registry inside a context goes through exactly the registry operations, and the prototype index
+    stays aligned with it, along any sequence -/
+theorem ctx_run {closedOf : Nat → Bool} {x : RegistryCtx} (h : CInv closedOf x) (ops : List CtxOp) :
+    CInv closedOf (x.run ops) ∧ (x.run ops).registry = (x.registry.run (ops.map CtxOp.toRegOp)).1 := by
+  induction ops generalizing x with
+  | nil => exact ⟨h, rfl⟩
+  | cons op ops ih =>
+    obtain ⟨h1, h2⟩ := ctx_step h op
+    obtain ⟨h3, h4⟩ := ih h1
+    refine ⟨h3, ?_⟩
+    simp only [RegistryCtx.run, List.map_cons, Registry.run]
+    rw [h4, h2]
+
+/-- **`get_route` hands out the empty route of an available actor, and never hands one out twice**:
+    after `get_route a`, no sequence without a `free_route` of a route of `a` lets `get_route a` return a route -/
+theorem ctx_never_hands_out_twice {closedOf : Nat → Bool} {x : RegistryCtx} (h : CInv closedOf x) (a : Nat)
+    (ops : List CtxOp) (hops : ∀ op ∈ ops, ∀ c, op = CtxOp.freeRoute c → c.actor ≠ a) :
+    ((x.getRoute a).2 = if x.registry.isAvail a then some (RouteCtx.proto a (closedOf a)) else none) ∧
+    ((((x.getRoute a).1).run ops).getRoute a).2 = none := by
+  obtain ⟨hc, hreg, hres⟩ := getRoute_spec h a
+  refine ⟨hres, ?_⟩
+  obtain ⟨hc', hreg'⟩ := ctx_run hc ops
+  rw [(getRoute_spec hc' a).2.2, hreg', hreg]
+  have hops' : ∀ op ∈ ops.map CtxOp.toRegOp, op ≠ RegOp.free a := by
+    intro op hop
+    obtain ⟨o, ho, e⟩ := List.mem_map.mp hop
+    subst e
+    cases o with
+    | freeRoute c =>
+      intro e
+      simp only [CtxOp.toRegOp] at e
+      have hca : c.actor = a := by injection e
+      exact hops _ ho c rfl hca
+    | get b => simp [CtxOp.toRegOp]
+    | useRoute c => simp [CtxOp.toRegOp]
+    | slice keep => simp [CtxOp.toRegOp]
+    | copy => simp [CtxOp.toRegOp]
+  have hfin := never_handed_out_twice h.reg a (ops.map CtxOp.toRegOp) hops'
+  have hinv : RInv ((x.registry.useActor a).1.run (ops.map CtxOp.toRegOp)).1 :=
+    registry_ops_preserve_inv (use_spec h.reg a).1 _
+  rw [(use_spec hinv a).2.1] at hfin
+  rw [hfin]
+  rfl
+
+/-- the route handed out is what the reference calls a fresh route: empty, accepted, of that actor -/
+theorem handed_out_route_is_fresh (a : Nat) (c : Bool) (n : Nat) :
+    (RouteCtx.proto a c).observe n = (RRoute.fresh a c).observe n :=
+  handed_out_route_is_fresh' a c n
+
+/-- from `RegistryContext::new(Registry::new(fleet))` the invariants hold -/
+theorem ctx_new (closedOf : Nat → Bool) (f : Fleet) :
+    CInv closedOf (RegistryCtx.new closedOf (Registry.new f)) :=
+  cinv_new closedOf (new_spec f).1
+
+/-! ## 4. Deep copies and handles: an operation only changes the handles it names -/
+
+theorem write_get_other {β} (ws : List (Nat × Option β)) (st : Store β) (h : Nat)
+    (hn : ∀ w ∈ ws, w.1 ≠ h) : (st.write ws).get h = st.get h := by
+  unfold Store.write
+  induction ws generalizing st with
+  | nil => rfl
+  | cons w ws ih =>
+    rw [List.foldl_cons, ih _ (fun x hx => hn x (List.mem_cons_of_mem _ hx))]
+    have hw : w.1 ≠ h := hn w (by simp)
+    have hf : ∀ (l : Store β), Store.get (l.filter (fun p => p.1 != w.1)) h = Store.get l h := by
+      intro l
+      unfold Store.get
+      have hfk := lookup_filter_key l (fun k => k != w.1) h
+      have hb : (h != w.1) = true := by simpa using (fun e : h = w.1 => hw e.symm)
+      simp only [hb, if_true] at hfk
+      exact hfk
+    cases hv : w.2 with
+    | none => simp only; exact hf st
+    | some v =>
+      simp only
+      unfold Store.get
+      rw [List.lookup_cons]
+      have : (h == w.1) = false := by simpa using (fun e : h = w.1 => hw e.symm)
+      rw [this]
+      exact hf st
+
+theorem eff_writes_targets (w : World) (st : Store Obj) (op : Op) (ws : List (Nat × Option Obj)) (out : Out)
+    (h : Obj.eff w st op = .ok (ws, out)) : ∀ x ∈ ws, x.1 ∈ op.targets := by
+  cases op <;> simp only [Obj.eff] at h <;> (repeat' split at h) <;> (try cases h) <;> simp [Op.targets]
+
+/-- **an operation on one handle never changes what another handle holds** (deep copies are handles of
+    their own: they are equal to the original when made and independent afterwards) -/
+theorem step_independent (w : World) (st st' : Store Obj) (op : Op) (out : Out)
+    (h : Obj.step w st op = .ok (st', out)) (k : Nat) (hk : k ∉ op.targets) : st'.get k = st.get k := by
+  unfold Obj.step at h
+  cases heff : Obj.eff w st op with
+  | error e => rw [heff] at h; cases h
+  | ok p =>
+    obtain ⟨ws, o⟩ := p
+    rw [heff] at h
+    simp only at h
+    cases h
+    apply write_get_other
+    intro x hx e
+    exact hk (e ▸ eff_writes_targets w st op _ _ heff x hx)
+
+theorem write_get_single {β} (st : Store β) (k : Nat) (v : β) : (st.write [(k, some v)]).get k = some v := by
+  simp [Store.write, Store.get, List.lookup_cons]
+
+/-- a deep copy is born equal to its original -/
+theorem copy_equal (w : World) (st st' : Store Obj) (dst k : Nat) (out : Out)
+    (h : Obj.step w st (.copy dst k) = .ok (st', out)) : st'.get dst = st.get k := by
+  unfold Obj.step at h
+  simp only [Obj.eff] at h
+  cases hk : st.get k with
+  | none => rw [hk] at h; cases h
+  | some o =>
+    rw [hk] at h
+    cases h
+    exact write_get_single st dst o
+
+/-! ## 5. The whole machine: tours, routes, route contexts, registries, registry contexts and their copies -/
+
+def Obj.run (w : World) (st : Store Obj) : List Op → Except String (Store Obj × List Out)
+  | [] => .ok (st, [])
+  | op :: ops =>
+    match Obj.step w st op with
+    | .error e => .error e
+    | .ok (st1, o) =>
+      match Obj.run w st1 ops with
+      | .error e => .error e
+      | .ok (st2, os) => .ok (st2, o :: os)
+
+def RObj.run (w : World) (rst : Store RObj) : List Op → Option (Store RObj × List Out)
+  | [] => some (rst, [])
+  | op :: ops =>
+    match RObj.step w rst op with
+    | none => none
+    | some (r1, o) =>
+      match RObj.run w r1 ops with
+      | none => none
+      | some (r2, os) => some (r2, o :: os)
+
+theorem machine_step_refines {w : World} {st : Store Obj} {rst : Store RObj} (hs : StoreSim w st rst) (op : Op)
+    {rst' : Store RObj} {rout : Out} (hr : RObj.step w rst op = some (rst', rout))
+    (hadm : rout ≠ Out.inadmissible) :
+    ∃ st', Obj.step w st op = .ok (st', rout) ∧ StoreSim w st' rst' := by
+  unfold RObj.step at hr
+  cases he : RObj.eff w rst op with
+  | none => rw [he] at hr; cases hr
+  | some p =>
+    obtain ⟨rws, ro⟩ := p
+    rw [he] at hr
+    simp only [Option.map_some] at hr
+    cases hr
+    obtain ⟨ws, hws, hsim⟩ := eff_refines hs op he hadm
+    exact ⟨st.write ws, by simp only [Obj.step, hws], write_sim ws rws st rst hs hsim⟩
+
+/-- **model(impl) = reference model, for operation sequences of any length over any number of handles**:
+    whenever the reference accepts the sequence (every `insert_at` index between the depot ends, every
+    `next` answer admissible), the code-shaped machine returns the same results, and every live handle —
+    originals and deep copies alike — holds an object that represents the reference's -/
+theorem machine_run_refines {w : World} (ops : List Op) {st : Store Obj} {rst : Store RObj}
+    (hs : StoreSim w st rst) {rst' : Store RObj} {outs : List Out}
+    (hr : RObj.run w rst ops = some (rst', outs)) (hadm : Out.inadmissible ∉ outs) :
+    ∃ st', Obj.run w st ops = .ok (st', outs) ∧ StoreSim w st' rst' := by
+  induction ops generalizing st rst outs with
+  | nil =>
+    simp only [RObj.run] at hr; cases hr
+    exact ⟨st, rfl, hs⟩
+  | cons op ops ih =>
+    simp only [RObj.run] at hr
+    cases h1 : RObj.step w rst op with
+    | none => rw [h1] at hr; cases hr
+    | some p =>
+      obtain ⟨r1, o⟩ := p
+      rw [h1] at hr
+      simp only at hr
+      cases h2 : RObj.run w r1 ops with
+      | none => rw [h2] at hr; cases hr
+      | some q =>
+        obtain ⟨r2, os⟩ := q
+        rw [h2] at hr
+        simp only at hr
+        cases hr
+        have ho : o ≠ Out.inadmissible := fun e => hadm (by rw [e]; simp)
+        have hos : Out.inadmissible ∉ os := fun e => hadm (List.mem_cons_of_mem _ e)
+        obtain ⟨st1, hst1, hs1⟩ := machine_step_refines hs op h1 ho
+        obtain ⟨st2, hst2, hs2⟩ := ih hs1 h2 hos
+        exact ⟨st2, by simp only [Obj.run, hst1, hst2], hs2⟩
+
+/-- related stores show the same thing through every handle -/
+theorem machine_observations_agree {w : World} {st : Store Obj} {rst : Store RObj} (hs : StoreSim w st rst)
+    (n h : Nat) : (st.get h).map (Obj.observe n) = (rst.get h).map (RObj.observe n) := by
+  have := hs h
+  cases h1 : st.get h with
+  | none =>
+    cases h2 : rst.get h with
+    | none => rfl
+    | some ro => rw [h1, h2] at this; cases this
+  | some o =>
+    cases h2 : rst.get h with
+    | none => rw [h1, h2] at this; cases this
+    | some ro =>
+      rw [h1, h2] at this
+      simp only [Option.map_some]
+      rw [observe_of_objsim this n]
+
+/-- **from the empty machine**: results and all observations of the code-shaped machine equal the
+    reference's, after any accepted sequence -/
+theorem machine_refines_from_empty (w : World) (ops : List Op) {rst' : Store RObj} {outs : List Out}
+    (hr : RObj.run w [] ops = some (rst', outs)) (hadm : Out.inadmissible ∉ outs) :
+    ∃ st', Obj.run w [] ops = .ok (st', outs) ∧
+      ∀ h, (st'.get h).map (Obj.observe w.nJobs) = (rst'.get h).map (RObj.observe w.nJobs) := by
+  have h0 : StoreSim w ([] : Store Obj) ([] : Store RObj) := fun h => by
+    show OptSim w none none
+    trivial
+  obtain ⟨st', h1, h2⟩ := machine_run_refines ops h0 hr hadm
+  exact ⟨st', h1, fun h => machine_observations_agree h2 w.nJobs h⟩
+
+/-- non-vacuity: the reference accepts a sequence with copies, a registry context, a route taken, filled,
+    returned and taken again -/
+example : (RObj.run { nJobs := 3, closed := [true, false], group := [4, 4] } []
+    [.newRctx 0, .getRoute 0 1 1, .insLast 1 2 0, .copy 2 1, .insAt 1 0 0 1, .rem 2 2, .getRoute 0 1 3,
+     .freeRoute 0 1, .getRoute 0 1 3, .newReg 5, .use 5 0, .next 5 [1], .slice 4 0 [1]]).map Prod.snd
+    = some [.unit, .bool true, .unit, .unit, .unit, .bool true, .bool false, .bool true, .bool true,
+            .unit, .bool true, .actors [1], .unit] := by decide
+
 end C14
